@@ -3,6 +3,8 @@ import itertools
 import json
 import random
 
+import re
+
 import common as C
 import fstrace
 
@@ -11,6 +13,10 @@ EXTRACTED = ("ConstStore",)
 ALLOWED_AXIOMS = ()
 
 VALUES = {"aa01": "value-of-aa01-" + "x" * 40, "bb02": "value-of-bb02-" + "y" * 40}
+# (for the os-buffered dimension) a value larger than the buffer of any file object: its bytes are written through while the
+# program is still inside f.write, in contrast with the small ones, which stay in the buffer until the file is closed
+BIG_VALUES = dict(VALUES, cc03="value-of-cc03-" + "z" * 20000)
+TMP = re.compile(r"\.tmp\.\d+\.[0-9a-f]{32}")
 
 
 def scenarios():
@@ -84,6 +90,73 @@ def inherited_scenarios(tier):
     return out
 
 
+def buffered_scenarios(tier):
+    """The dimension 'when do the bytes of a write reach the file': the scenarios of scenarios() and scenarios with readers
+    that USE what they find (probe = has_blob and, if present, fetch_blob; load; a second evaluation of the same keep),
+    run with io = "buffered": the program's writes go through real buffered file objects, and the scheduling points are
+    the os-level writes (each half) and closes at the place where they really happen - a process can be preempted
+    between publishing a name (replace / symlink) or opening a file and the write / close that follows.  Small values stay
+    in the buffer until the close; the big one is written through during f.write."""
+    init = ["init", "internal", "data"]
+    out = {}
+    for name, sc in scenarios().items():
+        # (quick: the 3-process shape is covered by writer+prober+loader, two committers / two data directories only thorough)
+        if tier != "quick" or name not in ("three-writers", "two-committers-one-path", "two-data-views"):
+            out[name + "@os-buffered"] = dict(sc, io="buffered", values=VALUES)
+    more = {
+        "keep-vs-probe": {"procs": [[init, ["keep", "aa01", "/d/p"]], [init, ["probe", "aa01"], ["load", "/d/p"], ["probe", "aa01"]]],
+                          "final": [["internal", "data", ["/d/p"]]]},
+        "big-keep-vs-probe": {"procs": [[init, ["keep", "cc03", "/d/p"]], [init, ["probe", "cc03"], ["load", "/d/p"], ["probe", "cc03"]]],
+                              "final": [["internal", "data", ["/d/p"]]]},
+        "big-same-keep-cold-store": {"procs": [[init, ["keep", "cc03", "/d/p"]], [init, ["keep", "cc03", "/d/p"], ["load", "/d/p"]]],
+                                     "final": [["internal", "data", ["/d/p"]]]},
+        "rekeep-big-vs-probe": {"procs": [[init, ["keep", "aa01", "/d/p"], ["keep", "cc03", "/d/p"]],
+                                          [init, ["probe", "aa01"], ["load", "/d/p"], ["probe", "cc03"], ["load", "/d/p"]]],
+                                "final": [["internal", "data", ["/d/p"]]]},
+        "writer+prober+loader": {"procs": [[init, ["keep", "aa01", "/d/p"]], [init, ["probe", "aa01"], ["probe", "aa01"]], [init, ["load", "/d/p"], ["load", "/d/p"]]],
+                                 "final": [["internal", "data", ["/d/p"]]]},
+    }
+    if tier != "quick":
+        more["two-big-committers-vs-prober"] = {"procs": [[init, ["keep", "cc03", "/d/p"]], [init, ["keep", "aa01", "/d/p"], ["keep", "cc03", "/d/q"]],
+                                                          [init, ["probe", "cc03"], ["load", "/d/p"], ["probe", "aa01"], ["load", "/d/q"]]],
+                                                "final": [["internal", "data", ["/d/p", "/d/q"]]]}
+        more["two-data-views-vs-probe"] = {"procs": [[["init", "internal", "data1"], ["keep", "cc03", "/d/p"]],
+                                                     [["init", "internal", "data2"], ["probe", "cc03"], ["keep", "cc03", "/d/p"], ["load", "/d/p"]]],
+                                           "final": [["internal", "data1", ["/d/p"]], ["internal", "data2", ["/d/p"]]]}
+    for name, sc in more.items():
+        out[name + "@os-buffered"] = dict(sc, io="buffered", values=BIG_VALUES)
+    if tier != "quick":
+        # a store object inherited from a parent that has already written through it
+        for name, tag, hows, w in (("same-keep-cold-store", "fork", ["fork", "fork"], None),
+                                   ("keep-vs-load", "warm-parent+spawn", ["self", "spawn"], [["keep", "bb02", "/d/v"]])):
+            out[f"{name}@{tag}@os-buffered"] = dict(with_inheritance(scenarios()[name], hows, w), io="buffered", values=VALUES)
+    return out
+
+
+def full_op_counts(sc):
+    """File-system operations of each process at most, over the runs in which one process goes first to completion (the
+    process that finds the store cold does the most): the preemption points of EVERY process as the writer are enumerated."""
+    n = len(sc["procs"])
+    res = C.run_driver("drive_sched.py", {"scenario": sc, "schedules": [[]] + [[t] * 2000 for t in range(n)]})
+    return [max(r["ops_per_thread"][t] for r in res) for t in range(n)]
+
+
+def file_kind(p):
+    """Kind of store object a (root-relative) file name designates."""
+    p = TMP.sub(".tmp", p)
+    tmp = p.endswith(".tmp")
+    p = p[:-4] if tmp else p
+    kind = "meta" if p.endswith(".meta") else "blob" if "/blobs/" in p else "dir" if p.endswith("/blobs") or p.count("/") <= 2 else "path"
+    return kind + (".tmp" if tmp else "")
+
+
+def windows(r):
+    """The preemptions that took place in a run: after which operation a process that was not finished lost the processor."""
+    ws = [w for w in r.get("switches", []) if not w["outgoing_finished"]]
+    return "; ".join(f"process {w['after'][0]} preempted after {w['after'][1]}({', '.join(TMP.sub('.tmp', str(x)) for x in w['after'][2:])}), process {w['then']} goes on"
+                     for w in ws[:3]) + (f"; ... ({len(ws)} preemptions)" if len(ws) > 3 else "")
+
+
 def schedules_for(n_threads, ops_per_thread, bound, rng, cap):
     """Schedules with at most `bound` preemptions: the running thread is switched after a chosen number of operations."""
     out = [[]]          # no preemption: thread 0 to completion, then 1, ...
@@ -134,19 +207,35 @@ def serial_final(sc):
 def check_result(name, sc, r, schedule=None):
     """Problems of one scheduled run."""
     probs = []
-    vals = {k: repr(v) for k, v in VALUES.items()}
+    vals = {k: repr(v) for k, v in (sc.get("values") or VALUES).items()}
     if r.get("parent_error"):
         return [("parent-failed", r["parent_error"])]
     for tid, outs in enumerate(r["out"]):
         if outs is None:
             probs.append(("thread-hung", tid))
             continue
+        # (one output per action, in program order) a keep returns the value of ITS key; a process reads back its own commit
+        own = set()
+        for a, o in zip(sc["procs"][tid], outs):
+            if a[0] == "keep" and o.startswith("V:") and o[2:] in vals.values() and o[2:] != vals.get(a[1]):
+                probs.append(("keep-returned-foreign-value", f"keep of {a[1]}: {o[:60]}"))
+            if a[0] == "load" and o == "E" and a[1] in own:
+                probs.append(("load-after-own-keep-failed", f"process {tid}: load {a[1]}"))
+            if a[0] == "keep":
+                own.add(a[2])
         for o in outs:
             if o.startswith("X:"):
                 probs.append(("process-failed:" + o.split(":")[1], o))
             elif o.startswith("V:"):
                 if o[2:] not in vals.values():
                     probs.append(("keep-returned-wrong-value", o[:60]))
+            elif o.startswith("P:"):
+                # the blob was reported present: its complete value must come back
+                _, k, v = o.split(":", 2)
+                if vals.get(k) != v:
+                    probs.append(("present-blob-fetched-partial-or-foreign", o[:60] + (f" ({len(v)} characters of {len(vals.get(k, ''))})" if len(v) > 60 else "")))
+            elif o.startswith("PE:"):
+                probs.append(("present-blob-not-fetchable", o))
             elif o.startswith("L:"):
                 _, k, v = o.split(":", 2)
                 if vals.get(k) != v:
@@ -174,6 +263,8 @@ def run(rep, tier, seed, proof_ok):
     cap = 120 if tier == "quick" and proof_ok else 1500
     cap_inh = 30 if tier == "quick" and proof_ok else 60
     inh = inherited_scenarios(tier)
+    buf = buffered_scenarios(tier)
+    cap_buf = 30 if tier == "quick" and proof_ok else 300
     rep.rule = (f"controlled scheduler over the real LocalFileStore code: scenarios {{same keep on a cold store (2 and 3 processes), keep vs "
                 "load, re-keep with another key vs reader, two committers of one path, one internal directory with two data "
                 "directories}, every process includes store creation; the same scenarios along the dimension 'origin of the store "
@@ -182,9 +273,20 @@ def run(rep, tier, seed, proof_ok):
                 "round trip (spawn), or used by the parent itself next to its children, also mixed with processes that build their "
                 f"own ({len(inh)} inherited scenarios{': ' + ', '.join(inh) if len(inh) <= 12 else ' = every scenario x 7 origins'}); scheduling points = "
                 "every intercepted file-system operation and "
-                f"each half of every write; schedules: all with <= 1 preemption, {cap} ({cap_inh} for inherited stores) sampled with 2 preemptions"
-                f"{', plus random schedules' if bound >= 3 else ''}; each keep / load that returns must return the complete value of its "
-                "key, no thread may die with an exception, and the final store must serve a correct value for every path (a path "
+                "each half of every write; the dimension 'when do written bytes reach the file': above every Python-level f.write is "
+                "the system call (bytes in the file at once), and in the os-buffered runs the files are real buffered file objects "
+                "(harness/fsbuf.py) whose os-level writes (each half) and os-level close are the scheduling points at the place "
+                "where they really happen - buffer overflow, flush, close - so that a process is also preempted between EVERY "
+                "rename / symlink / open and the write or close that follows it, with values that stay in the buffer until the close "
+                "(54 bytes) and one that is written through during f.write (20 kB), and with reader processes that use what they "
+                "find scheduled into every such window of the blob, the metadata file and the path link: probe = has_blob and, "
+                "when it says present, fetch_blob (which must then return the complete value and may not fail, not even with a DDS "
+                "error), load, a second evaluation of the same keep "
+                f"({len(buf)} os-buffered scenarios: {', '.join(n.split('@os-buffered')[0] for n in buf)}; for these the preemption points of every process are "
+                "enumerated over its longest run, i.e. as the one that finds the store cold); "
+                f"schedules: all with <= 1 preemption (exhaustive, in both write models), {cap} ({cap_inh} for inherited stores, {cap_buf} for os-buffered) sampled with 2 preemptions"
+                f"{', plus random schedules' if bound >= 3 else ''}; each keep / load / probe that returns must return the complete value of its "
+                "key (a keep: of the key it was called with), a process reads back a path it has committed itself, no thread may die with an exception, and the final store must serve a correct value for every path (a path "
                 "committed only by the parent: the parent's value; after the serial schedule: the value of the last committer); "
                 "plus the system-call trace correspondence between the real store and the Coq model; distinct = distinct "
                 "(scenario, schedule); non-trivial = schedule with at least one preemption")
@@ -192,17 +294,23 @@ def run(rep, tier, seed, proof_ok):
                         "(has_blob, store_blob, sync_paths, fetch_paths, fetch_blob); dds's own module state is per process and not shared",
                         "a forked child's image of its parent's store object is copy.deepcopy of it, a spawned child's is its pickle round "
                         "trip; os.getpid() differs between simulated processes and is the parent's for the parent",
-                        "the operating system executes each intercepted call atomically"]
+                        "the operating system executes each intercepted call atomically",
+                        "os-buffered runs: files opened for writing are built as io.open builds them (FileIO, BufferedWriter / BufferedRandom, "
+                        "TextIOWrapper, buffer size of the running Python) on a FileIO subclass whose write / close are gated; pyarrow and other "
+                        "non-Python writers are not seen"]
     dist = {}
     inherited = inh
-    for name, sc in list(scenarios().items()) + list(inherited.items()):
-        sc = dict(sc, values=VALUES)
-        base = C.run_driver("drive_sched.py", {"scenario": sc, "schedules": [[]]})[0]
-        opt = base["ops_per_thread"]
-        sch = schedules_for(len(sc["procs"]), opt, bound, rng, cap_inh if name in inherited else cap)
+    buffered = buf
+    import concurrent.futures as cf
+    for name, sc in list(scenarios().items()) + list(inherited.items()) + list(buffered.items()):
+        sc = dict(sc, values=sc.get("values") or VALUES)
+        if name in buffered:
+            opt = full_op_counts(sc)
+        else:
+            opt = C.run_driver("drive_sched.py", {"scenario": sc, "schedules": [[]]})[0]["ops_per_thread"]
+        sch = schedules_for(len(sc["procs"]), opt, bound, rng, cap_buf if name in buffered else cap_inh if name in inherited else cap)
         res = []
-        chunk = 40 if name in inherited and tier == "quick" else 250     # (few schedules per inherited scenario: still spread them)
-        import concurrent.futures as cf
+        chunk = 40 if (name in inherited or name in buffered) and tier == "quick" else 250     # (few schedules per scenario: still spread them)
         with cf.ThreadPoolExecutor(max_workers=C.NPROC) as ex:
             parts = list(ex.map(lambda c: C.run_driver("drive_sched.py", {"scenario": sc, "schedules": c}, timeout=900),
                                 [sch[i:i + chunk] for i in range(0, len(sch), chunk)]))
@@ -212,11 +320,23 @@ def run(rep, tier, seed, proof_ok):
         if name in inherited:
             dist[name]["store_objects"] = [next((a[1] for a in prog if a[0] == "inherit"), "own") for prog in sc["procs"]]
             dist[name]["parent_ops_before_fork"] = len(sc["parent"]) - 1
+        if name in buffered:
+            dist[name]["io"] = "buffered"
+            dist[name]["one_preemption_schedules"] = sum(1 for s in sch if sum(1 for a, b in zip(s, s[1:]) if a != b) == 1)
+            dist[name]["value_sizes"] = sorted({len(sc["values"][a[1]]) for prog in sc["procs"] for a in prog if a[0] in ("keep", "probe")})
+            win = dist[name]["preempted_after"] = {}
         for s, r in zip(sch, res):
             switches = sum(1 for a, b in zip(s, s[1:]) if a != b)
             rep.case(json.dumps([name, s]), nontrivial=switches >= 1)
+            if name in buffered:
+                # which windows were really entered: (operation, kind of file) after which a process lost the processor
+                for w in r.get("switches", []):
+                    if not w["outgoing_finished"]:
+                        k = w["after"][1] + ":" + file_kind(str(w["after"][-1] if w["after"][1] in ("replace", "rename", "symlink") else w["after"][2]))
+                        win[k] = win.get(k, 0) + 1
             for kind, detail in check_result(name, sc, r, s):
-                rep.violation(f"race:{kind}:{name}", f"scenario {name}: {kind}: {detail} under schedule with {switches} switches",
+                rep.violation(f"race:{kind}:{name}", f"scenario {name}: {kind}: {detail} under schedule with {switches} switches"
+                              + (f" [{windows(r)}]" if windows(r) else ""),
                               {"scenario": name, "schedule": s, "result": r, "spec": sc})
     rep.extra["input_distribution"] = dist
     fstrace.run(rep, rng, 20 if tier == "quick" else 150)
